@@ -689,6 +689,7 @@ class Env:
         self.units = {}
         self.Quantity = Quantity
         self.shared_ns = {'__doc__': 'declared by the simulator'}
+        self.terms = {}
 
     def namespace(self, name):
         """The class namespace handed to the metaclass: a fresh dict, or -
@@ -826,7 +827,12 @@ def perform(env: Env, act):
                     k = Decimal(k)      # int ** -1 would be a float
                 nums.append((k, e))
             spell = act.get('spell', 0)
-            if spell == 0:
+            sig = repr((act['items'], act['nums'], spell))
+            if sig in env.terms:
+                # the very Term object of an earlier declaration (possibly
+                # a rejected one) is used again
+                term = env.terms[sig]
+            elif spell == 0:
                 term = Term(nums + items)
             elif spell == 1:
                 term = Term(items + nums)
@@ -840,6 +846,7 @@ def perform(env: Env, act):
                         term = term / k
                     else:
                         term = Term([(k, e)]) * term
+            env.terms[sig] = term
             u = cls.new_unit(act['sym'], None, term)
             env.units[u.symbol] = u
             return 'ok', {}
